@@ -317,6 +317,17 @@ class Interval:
         for s in reversed(blk["stmts"]):
             if s["k"] == "assign" and not s["p"]["pr"] and s["p"]["l"] == local:
                 rv = s["rv"]
+                if rv["k"] == "binop" and rv["op"] in ("Eq", "Ne") and is_place(rv["a"]) and not rv["a"]["p"]["pr"] and rv["b"].get("k") == "const":
+                    # `x & M == V` with M a high-bits mask: x lies in one interval
+                    for s2 in reversed(blk["stmts"]):
+                        if s2["k"] == "assign" and not s2["p"]["pr"] and s2["p"]["l"] == rv["a"]["p"]["l"] and s2["rv"]["k"] == "binop" and s2["rv"]["op"] == "BitAnd" and s2["rv"]["b"].get("k") == "const" and is_place(s2["rv"]["a"]) and not s2["rv"]["a"]["p"]["pr"]:
+                            xv = s2["rv"]["a"]["p"]["l"]
+                            src = self._alias_src(blk, xv)
+                            rr = self.ty_range(xv)
+                            ms = mask_set(s2["rv"]["b"].get("v"), rv["b"].get("v"), rr) if rr else None
+                            if ms:
+                                p_ = ("in", src if src is not None else xv, ms[0][0], ms[0][1])
+                                return p_ if rv["op"] == "Eq" else ("not", p_)
                 if rv["k"] == "binop" and rv["op"] in ("Lt", "Le", "Gt", "Ge", "Eq", "Ne"):
                     return ("cmp", rv["op"], rv["a"], rv["b"])
                 if rv["k"] == "unop" and rv["op"] == "Not":
@@ -345,6 +356,14 @@ class Interval:
                         var = pt["args"][0]["p"]["l"]
                     if var is not None:
                         return ("inset", var, summ[0], summ[1], pt["args"][0])
+        return None
+
+    @staticmethod
+    def _alias_src(blk, local):
+        """The variable a block-local temporary is a fresh copy of (`_3 = copy _1`)."""
+        for s_ in blk["stmts"]:
+            if s_["k"] == "assign" and not s_["p"]["pr"] and s_["p"]["l"] == local and s_["rv"]["k"] == "use" and is_place(s_["rv"]["op"]) and not s_["rv"]["op"]["p"]["pr"]:
+                return s_["rv"]["op"]["p"]["l"]
         return None
 
     def contains_pred(self, bb, pt):
@@ -666,9 +685,18 @@ def bool_summary(crate, f):
         return None
     if b.local_ty(1).startswith("&"):
         return None
+    r = INT_RANGE[b.local_ty(1)]
+    # `fn f(x) -> bool { TABLE.iter().any(|&(lo, hi)| (lo..=hi).contains(&x)) }`: a constant table of ranges
+    ts = _table_any_summary(crate, b, r)
+    if ts is not None:
+        _SUMMARIES[key] = ts
+        return ts
+    ms = _mask_test_summary(b, r)
+    if ms is not None:
+        _SUMMARIES[key] = ms
+        return ms
     # no calls other than further summarised helpers / contains
     iv = Interval(b)
-    r = INT_RANGE[b.local_ty(1)]
     tset, fset = [], []
     if not iv.return_states:
         return None
@@ -731,6 +759,114 @@ def ret_summary(crate, f):
     if acc and acc != (INT_RANGE[b.local_ty(0)],):
         _RET[key] = acc
     return _RET[key]
+
+
+def mask_set(m, v, r):
+    """Values x of the range r with `x & m == v`, when that set is one interval: m keeps a run of high bits and drops
+    all bits below it (`x & 0xF800 == 0xD800` is 0xD800..=0xDFFF); None otherwise."""
+    if not (isinstance(m, int) and isinstance(v, int)) or m < 0 or v < 0 or r[0] != 0:
+        return None
+    width = r[1].bit_length()
+    low = 0
+    while low < width and not (m >> low) & 1:
+        low += 1
+    if m != ((1 << width) - 1) & ~((1 << low) - 1):
+        return None
+    if v & ~m:
+        return ()  # never equal
+    return ((v, v + (1 << low) - 1),)
+
+
+def _mask_test_summary(b, r):
+    """(accepted, rejected) for `fn f(x: uN) -> bool { x & M == V }` (or `!=`)."""
+    from model import const_value, trace
+
+    if len(list(b.calls())) != 0 or len([x for x in b.reach()]) != 1:
+        return None
+    ds = b.whole_defs(0)
+    if len(ds) != 1 or ds[0][2] != "assign" or ds[0][3]["rv"]["k"] != "binop" or ds[0][3]["rv"]["op"] not in ("Eq", "Ne"):
+        return None
+    rv = ds[0][3]["rv"]
+    v = const_value(rv["b"])
+    at = trace(b, rv["a"])
+    if not (at.origin and at.origin[0] == "rvalue" and at.origin[1]["rv"]["k"] == "binop" and at.origin[1]["rv"]["op"] == "BitAnd"):
+        return None
+    m = const_value(at.origin[1]["rv"]["b"])
+    xt = trace(b, at.origin[1]["rv"]["a"])
+    if xt.origin != ("arg", 1) or not all(s_[0] == "use" for s_ in xt.steps):
+        return None
+    acc = mask_set(m, v, r)
+    if acc is None:
+        return None
+    rej = (r,)
+    for lo, hi in acc:
+        rej = remove(rej, lo, hi, r)
+    return (acc, rej) if rv["op"] == "Eq" else (rej, acc)
+
+
+def _table_any_summary(crate, b, r):
+    """(accepted, rejected) for `CONST_TABLE.iter().any(|&(lo, hi)| (lo..=hi).contains(&x))` (or `lo..hi`) with x the
+    function's parameter; None when the body is not of that form."""
+    from model import trace
+
+    calls = list(b.calls())
+    anyc = [(bb, t) for bb, t in calls if (fn_of(t) or {}).get("def") == "std::iter::Iterator::any" and not t["dest"]["pr"] and t["dest"]["l"] == 0]
+    if len(anyc) != 1 or len(calls) != 2:
+        return None
+    bb, t = anyc[0]
+    f = fn_of(t)
+    cls = [crate.by_id.get(c) for c in f.get("closures", [])]
+    if len(cls) != 1 or cls[0] is None:
+        return None
+    c = cls[0]
+    # the table
+    rt = trace(b, t["args"][0])
+    if not (rt.origin and rt.origin[0] == "call" and (fn_of(rt.origin[2]) or {}).get("name") == "iter"):
+        return None
+    tt = trace(b, rt.origin[2]["args"][0])
+    dec = tt.origin[1].get("decoded") if tt.origin and tt.origin[0] == "const" else None
+    rows = []
+    for e in (dec or {}).get("seq", []):
+        tup = e.get("tuple")
+        if not (tup and len(tup) == 2 and all(isinstance(x.get("v"), int) for x in tup)):
+            return None
+        rows.append((tup[0]["v"], tup[1]["v"]))
+    if not rows:
+        return None
+    # the closure: one range constructor (or aggregate) over the element's two fields, one contains on the captured x
+    cont = [(cb, ct) for cb, ct in c.calls() if (fn_of(ct) or {}).get("name") == "contains" and "std::ops::Range" in (fn_of(ct) or {}).get("def", "")]
+    if len(cont) != 1 or cont[0][1]["dest"]["pr"] or cont[0][1]["dest"]["l"] != 0:
+        return None
+    ct = cont[0][1]
+    inclusive = "RangeInclusive" in fn_of(ct)["def"]
+    rng = trace(c, ct["args"][0])
+    ops = None
+    if rng.origin and rng.origin[0] == "call" and (fn_of(rng.origin[2]) or {}).get("name") == "new" and "RangeInclusive" in (fn_of(rng.origin[2]) or {}).get("def", ""):
+        ops = rng.origin[2]["args"]
+    elif rng.origin and rng.origin[0] == "agg" and rng.origin[1]["rv"].get("adt", "").endswith("::Range"):
+        ops = rng.origin[1]["rv"]["ops"]
+    if not ops or len(ops) != 2:
+        return None
+    for i, o in enumerate(ops):
+        ot = trace(c, o)
+        flds = [s_[1] for s_ in ot.steps if s_[0] == "field"]
+        if not (ot.origin == ("arg", 2) and flds == [str(i)]):
+            return None
+    it = trace(c, ct["args"][1])
+    if not (it.origin == ("arg", 1) and any(s_[0] == "field" for s_ in it.steps)):
+        return None
+    # the captured variable is the function's own parameter
+    env = trace(b, t["args"][1])
+    if not (env.origin and env.origin[0] == "agg" and len(env.origin[1]["rv"]["ops"]) == 1):
+        return None
+    pt = trace(b, env.origin[1]["rv"]["ops"][0])
+    if not (pt.origin == ("arg", 1)):
+        return None
+    acc = norm([(max(lo, r[0]), min(hi if inclusive else hi - 1, r[1])) for lo, hi in rows if (hi if inclusive else hi - 1) >= lo])
+    rej = (r,)
+    for lo, hi in acc:
+        rej = remove(rej, lo, hi, r)
+    return acc, rej
 
 
 _FOR_BODY = {}
